@@ -33,6 +33,8 @@ class Fold:
         self.if_node = None
         self.also = []            # other statements of the update block
         self.covers_all = True    # incumbent variant: seed X[0] + loop X[1:]
+        self.elem = None          # source of the candidate ELEMENT (cand itself, or X[cand] when cand is an index over X)
+        self.winner = None        # source of the expression that denotes the winning element (best, or X[best])
 
     def describe(self):
         return ("%s over %s, key %s, %s%s, seed %s, winner -> %s%s" % (
@@ -255,7 +257,66 @@ def find_folds(fn):
             f.set_src = norm_src(seed.value)
             f.seed = "first-element"
         folds.append(f)
+    for f in folds:
+        _finish(f, fn, par)
     return folds
+
+
+def _index_loop(it):
+    """range(len(X)) / range(0, len(X)) / range(1, len(X)) -> (source of X, start) else None."""
+    if isinstance(it, ast.Call) and isinstance(it.func, ast.Name) and it.func.id == "range" and not it.keywords and len(it.args) in (1, 2):
+        hi = it.args[-1]
+        lo = norm_src(it.args[0]) if len(it.args) == 2 else "0"
+        if isinstance(hi, ast.Call) and isinstance(hi.func, ast.Name) and hi.func.id == "len" and len(hi.args) == 1 and lo in ("0", "1"):
+            return norm_src(hi.args[0]), int(lo)
+    return None
+
+
+def _finish(f, fn, par):
+    """Element / winner expressions and first-element seeding, uniformly for all fold forms:
+       best = X[0] (; value = key(best)); for c in X[1:] | X          -> seed 'first-element' over X
+       best = 0    (; value = key(X[0])); for k in range(1|0, len(X))  -> the same, index form."""
+    inner = f.inner
+    f.elem, f.winner = f.cand, f.best
+    idx = _index_loop(inner.iter) if inner is not None else None
+    X = None
+    start = 0
+    if idx is not None and isinstance(inner.target, ast.Name) and f.key is not None and \
+            any(isinstance(x, ast.Subscript) and norm_src(x) == "%s[%s]" % (idx[0], inner.target.id) for x in ast.walk(f.key)):
+        X, start = idx
+        f.elem = "%s[%s]" % (X, inner.target.id)
+        if f.best_value is not None and norm_src(f.best_value) == inner.target.id:
+            f.winner = "%s[%s]" % (X, f.best)
+        f.set_src = X if start == 0 else "%s[1:]" % X
+    elif inner is not None:
+        it = inner.iter
+        if isinstance(it, ast.Subscript) and isinstance(it.slice, ast.Slice) and it.slice.upper is None and it.slice.step is None and \
+                it.slice.lower is not None and norm_src(it.slice.lower) == "1":
+            X, start = norm_src(it.value), 1
+        elif not isinstance(it, ast.Call):
+            X, start = norm_src(it), 0
+    if X is None or f.best is None or f.seed == "first-element":
+        return
+    bseed, _ = _seed_of(fn, par, f.best, inner)
+    first = None
+    if bseed is not None:
+        if idx is not None and bseed == "0":
+            first = "%s[0]" % X
+        elif idx is None and bseed == "%s[0]" % X:
+            first = bseed
+    if first is None:
+        if start == 1:
+            f.covers_all = False
+        return
+    key_of_first = {f.key_src.replace(f.elem, first), f.key_src.replace(f.elem, f.winner)} if f.key_src else set()
+    if f.kind == "value-var":
+        if f.seed not in key_of_first:
+            if start == 1:
+                f.covers_all = False
+            return
+    f.seed = "first-element"
+    f.covers_all = True
+    f.set_src = X
 
 
 def _rename(e, old, new):
@@ -313,6 +374,64 @@ def _seed_of(fn, par, var, inner):
                         return norm_src(s.value), node
         node = par.get(id(node))
     return None, inner
+
+
+def reduction_of(loop):
+    """`for x in S: acc = max(acc, key(x))` and equivalent spellings (np.maximum / min / np.minimum with either argument
+    order, `if key(x) > acc: acc = key(x)`, `acc += key(x)`): returns (acc name, 'max'|'min'|'sum', key AST, element name) or None."""
+    if not (isinstance(loop, ast.For) and isinstance(loop.target, ast.Name) and not loop.orelse):
+        return None
+    x = loop.target.id
+    body = [b for b in loop.body if not (isinstance(b, ast.Expr) and isinstance(b.value, ast.Constant))]
+    # temporaries of the body are inlined into the last statement
+    if not body:
+        return None
+    last = body[-1]
+    pre = body[:-1]
+    if any(not (isinstance(b, ast.Assign) and len(b.targets) == 1 and isinstance(b.targets[0], ast.Name)) for b in pre):
+        return None
+
+    def inl(e):
+        return _inline_temps(e, pre, None)
+    if isinstance(last, ast.Assign) and len(last.targets) == 1 and isinstance(last.targets[0], ast.Name) and isinstance(last.value, ast.Call) \
+            and len(last.value.args) == 2 and not last.value.keywords:
+        acc = last.targets[0].id
+        f = norm_src(last.value.func)
+        op = {"np.maximum": "max", "max": "max", "numpy.maximum": "max", "np.minimum": "min", "min": "min", "numpy.minimum": "min"}.get(f)
+        a, b = last.value.args
+        if op and isinstance(a, ast.Name) and a.id == acc:
+            key = inl(b)
+        elif op and isinstance(b, ast.Name) and b.id == acc:
+            key = inl(a)
+        else:
+            return None
+        if _mentions(key, acc) or not _mentions(key, x) or any(b2.targets[0].id == acc for b2 in pre):
+            return None
+        return acc, op, key, x
+    if isinstance(last, ast.AugAssign) and isinstance(last.op, ast.Add) and isinstance(last.target, ast.Name):
+        acc = last.target.id
+        key = inl(last.value)
+        if _mentions(key, acc) or not _mentions(key, x) or any(b2.targets[0].id == acc for b2 in pre):
+            return None
+        return acc, "sum", key, x
+    if isinstance(last, ast.If) and not last.orelse and isinstance(last.test, ast.Compare) and len(last.test.ops) == 1 and len(last.body) == 1 and \
+            isinstance(last.body[0], ast.Assign) and len(last.body[0].targets) == 1 and isinstance(last.body[0].targets[0], ast.Name):
+        acc = last.body[0].targets[0].id
+        o = _OPS.get(type(last.test.ops[0]))
+        l, r = inl(last.test.left), inl(last.test.comparators[0])
+        v = inl(last.body[0].value)
+        if o is None:
+            return None
+        if isinstance(r, ast.Name) and r.id == acc and norm_src(l) == norm_src(v):
+            key, oo = l, o
+        elif isinstance(l, ast.Name) and l.id == acc and norm_src(r) == norm_src(v):
+            key, oo = r, _FLIP[o]
+        else:
+            return None
+        if _mentions(key, acc) or not _mentions(key, x) or any(b2.targets[0].id == acc for b2 in pre):
+            return None
+        return acc, ("max" if oo in (">", ">=") else "min"), key, x
+    return None
 
 
 def assignments_outside(fn, var, fold):
